@@ -196,6 +196,12 @@ func c03Directives(p *core.Program, r *core.Report, e *engines) {
 			if ev.Kind == "instr" && ev.Operand.Kind == "raw" && kind != "" {
 				castRaw[kind] = ev.Op + " " + ev.Operand.Raw.ExactString()
 			}
+			// table-driven: the operand is looked up under the expected kind
+			if ev.Kind == "instr" && ev.Operand.Kind == "rawtable" {
+				for _, kv := range ev.Operand.Table {
+					castRaw[kv[0]] = ev.Op + " " + kv[1]
+				}
+			}
 		}
 	}
 	// the cast handler: raw value -> result type of the conversion pushed
